@@ -697,6 +697,13 @@ VALID_INT = {"positive_int": ["1", "2", "3"], "nonnegative_int": ["0", "1", "2",
              "int": ["0", "1", "7"], "probability": ["0", ".5", "1"]}
 BOUNDARY = ["-1", "0", "1", "2", "3", "12", "1.5", "x", "", HUGE]
 SMALL_BOUNDARY = ["-1", "0", "1", "2", "3", "1.5", "x", ""]
+# spellings that some number parser or other accepts (ratios, exponents, special floats, other digits, separators)
+NUMBERLIKE = ["1/0", "0/0", "1/2", "3/1", "-1/0", "nan", "inf", "-inf", "1e400", "1e-400", "-1e400", "0x10", "1_0", "\u0663", "\u00bd",
+              "+2", "1.", ".5", "1e2", "1e0", "1j", "-0", "0.0", "-0.0", "2.0", "1e-1", "1%", "1,5", "0b1", "1e", "e1", "--1", "1/"]
+
+
+def boundary_token(r, pool):
+    return r.choice(NUMBERLIKE) if r.random() < 0.3 else r.choice(pool)
 # positional integer slots in which the 30-digit number is answered at once (measured on the unchanged tree;
 # elsewhere it means an endless loop, which no classifier can judge)
 HUGE_SAFE = {"and": {0, 1}, "bphp": {0}, "cliquecoloring": {0, 2}, "count": {0, 1}, "cpls": {0, 1, 2}, "or": {0, 1},
@@ -795,7 +802,7 @@ def gen_graph(r, gtype, ops, files, allow_huge=True):
     elif m == 1:
         spec.append(r.choice(["2", "0", "x", "-1"]))
     elif m in (2, 3) and nums:
-        spec[r.choice(nums)] = r.choice(SMALL_BOUNDARY)
+        spec[r.choice(nums)] = boundary_token(r, SMALL_BOUNDARY)
         ops.append("boundary-number")
     elif m == 4:
         other = r.choice([t for t in VALID_GRAPHS if t != gtype])
@@ -812,7 +819,7 @@ def gen_graph(r, gtype, ops, files, allow_huge=True):
         spec += [str(t) for t in r.choice([g for g in VALID_GRAPHS[gtype] if not g[0].startswith("@")])]
     elif m == 9:
         mod = list(r.choice(MODIFIERS[gtype][:-1] or [["addedges", "1"]]))
-        mod[-1] = r.choice(SMALL_BOUNDARY + ["12"])
+        mod[-1] = boundary_token(r, SMALL_BOUNDARY + ["12"])
         spec += mod
         ops.append("boundary-number")
     else:
@@ -825,7 +832,7 @@ def gen_int(r, tname, ops, mode, small=False):
     if mode == "valid" or r.random() < 0.45:
         return r.choice(valid)
     ops.append("boundary-number")
-    return r.choice(SMALL_BOUNDARY if small else SMALL_BOUNDARY + ["12", "12"])
+    return boundary_token(r, SMALL_BOUNDARY if small else SMALL_BOUNDARY + ["12", "12"])
 
 
 CANONICAL_GRAPH = {"simple": ["complete", "3"], "bipartite": ["complete", "2", "2"], "dag": ["path", "2"]}
@@ -863,7 +870,7 @@ def gen_variant(r, sub, gtype, ops, files, mode, small=False):
             return list(r.choice(HUGE_VARIANTS[sub]))
         pool = SMALL_BOUNDARY + ["4", "5", "6"] + ([] if small else ["12"])
         ops.append("boundary-number")
-        return [r.choice(pool) for _ in range(n + (r.random() < 0.1))]
+        return [boundary_token(r, pool) for _ in range(n + (r.random() < 0.1))]
     g = gen_graph(r, gtype, ops, files, allow_huge=not small)
     if sub == "tseitin":
         c = r.choice(CHARGES) if r.random() < 0.85 else r.choice(["foo", "", "1", "First"])
@@ -1467,6 +1474,38 @@ def case_witnesses(ctx):
     run_batch(ctx, ("witnesses", 0), cmds, 4)
 
 
+def case_numberlike_tokens(ctx, lo, hi):
+    """Every numeric position of every graph construction and option, and the integer arguments of a few sub-commands,
+    holding every spelling of NUMBERLIKE (ratios, exponents, special floats, other digits): whatever a number parser
+    makes of them, the tool answers with a formula or with a shielded error."""
+    frames = []
+    for gtype, lead in (("simple", ["kcolor", "2"]), ("bipartite", ["php"]), ("dag", ["peb"])):
+        specs = {"simple": [["gnp", "4", ".5"], ["gnp", "2", ".5", "2"], ["gnm", "4", "3"], ["gnd", "4", "2"], ["grid", "2", "2"], ["torus", "3"],
+                            ["complete", "3"], ["complete", "2", "2"], ["empty", "3"], ["complete", "3", "plantclique", "2"],
+                            ["empty", "4", "addedges", "2"], ["complete", "3", "splitedges", "1"]],
+                 "bipartite": [["glrp", "2", "2", ".5"], ["glrm", "2", "2", "2"], ["glrd", "2", "2", "1"], ["regular", "2", "2", "1"],
+                               ["shift", "2", "2", "0"], ["complete", "2", "2"], ["empty", "2", "2", "addedges", "1"],
+                               ["empty", "2", "2", "plantbiclique", "1", "1"]],
+                 "dag": [["path", "3"], ["tree", "2"], ["pyramid", "2"]]}[gtype]
+        for spec in specs:
+            for i, t in enumerate(spec):
+                if is_number(t):
+                    frames.append((lead, spec, i))
+    for lead, spec in ((["php"], ["3", "2"]), (["tseitin"], ["4", "2"]), (["op"], ["4", "2"]), (["randkcnf"], ["2", "4", "3"]),
+                       (["and"], ["2", "1"]), (["php", "2", "1", "-T", "xorcomp"], ["2", "1"]), (["php", "2", "1", "-T", "xor"], ["2"]),
+                       (["count"], ["4", "2"]), (["vdw"], ["4", "2", "2"])):
+        for i in range(len(spec)):
+            frames.append((lead, spec, i))
+    cmds = []
+    for lead, spec, i in frames:
+        for tok in NUMBERLIKE:
+            argv = list(lead) + spec[:i] + [tok] + spec[i + 1:]
+            cmds.append({"tool": "cnfgen", "argv": argv, "stdin": "empty", "ops": ["boundary-number"], "files": [], "gen": "numberlike"})
+    cmds = cmds[lo:hi]
+    ctx.count("numberlike_tokens_in_numeric_slots", len(cmds))
+    run_batch(ctx, ("numberlike", lo), cmds, 1)
+
+
 def case_long_command_lines(ctx):
     """Valid command lines of 500 to 4000 characters (they are echoed in the header of the formula, one long comment line)."""
     cmds = []
@@ -1853,6 +1892,8 @@ def workload(tier, seed):
     yield "unseekable", {}
     yield "streams", {}
     yield "witnesses", {}          # first: the minimal command line of a mechanism becomes its replay
+    for lo in range(0, 2400, 300):
+        yield "numberlike_tokens", {"lo": lo, "hi": lo + 300}
     n_grammar, n_mut, n_fil = (2700, 2400, 600) if quick else (33000, 33000, 6000)
     # indices depend on the seed so that another seed is another sample
     base = seed * 1000003
